@@ -28,6 +28,16 @@ CLAIMS = {
  "C10": ("Clause set: raises-only clauses (documented classes only) of every public decoder on ARBITRARY octet strings, strict-prefix refusal for self-delimiting units, decoder loops with variants (NAK, parser) or bounded lists (labelled).", "DESIGN.md 5 C10"),
  "C11": ("Clause set: after each documented setter (objects first used: packed / hashed, so caches are exercised) reported length, length field and octets equal those of a freshly built object; pack twice identical; caller-supplied config / params objects unchanged (snapshot + same_state).", "DESIGN.md 5 C11"),
 }
+EXTRA_NOTE = {
+ "C04": " Bounded and labelled so in evidence (never counted as discharged): agreement of crcmod with the reference CRC (seeded native run). Known finding: CFDP CRC-flag bit (KNOWN_FINDINGS.json).",
+ "C06": " Bounded and labelled so in evidence: Finished / Metadata TLV lists (<= 2 items, names <= 80 octets), their arbitrary-input harnesses beyond the fixed parameters; NAK lists are unbounded (contracts/c06n.py).",
+ "C09": " Bounded parts inherited from C06 (Finished / Metadata lists).",
+ "C10": " Bounded parts inherited from C06 (Finished / Metadata TLV areas); quick tier runs the NAK arbitrary-input clauses on a well-formed header + arbitrary rest, thorough tier on fully arbitrary octets.",
+ "C11": " Bounded parts inherited from C06 (list setters of Finished / Metadata with <= 2 items).",
+ "C13": " Domain restriction: at most 2 registered packet IDs per harness; queue, stream and number of packets are unbounded (loop contracts).",
+ "C14": " Float views are proved in a real-arithmetic model with IEEE-754 binary64 error bounds (assumption listed in evidence).",
+ "C19": " File system, decimal text and 2**w are trusted models (listed in evidence; cross-checked against CPython by tools/xcheck_fs.py).",
+}
 NOT_APPLICABLE = {}
 props = [json.loads(l)["id"] for l in open(os.path.join(V, "properties.jsonl"))]
 checks = []
@@ -36,7 +46,7 @@ for pid in props:
         text, ref = CLAIMS[pid]
         checks.append({"property_id": pid, "quick_cmd": f"./check {pid} --tier quick", "thorough_cmd": f"./check {pid} --tier thorough",
                        "evidence_file": f"evidence/{pid}.json", "replay_cmd_template": f"./check {pid} --replay {{path}}", "engine": "pyvc",
-                       "level_claimed": {"category": "proof", "text": text, "design_ref": ref}, "level_note": NOTE, "technique": TECH})
+                       "level_claimed": {"category": "proof", "text": text, "design_ref": ref}, "level_note": NOTE + EXTRA_NOTE.get(pid, ""), "technique": TECH})
 na = [{"property_id": p, "reason": NOT_APPLICABLE.get(p, "check not built yet (contracts for this property are still being written); it will be claimed once its obligations are generated and discharged")}
       for p in props if p not in CLAIMS]
 m = {"version": 1,
